@@ -4,7 +4,7 @@
    the grammar of TokenProofs.line_ok admits) whose first line is a time stamp and whose time stamps increase, for every
    max_threads and min_chunk, the model of read_values' multi-threaded branch (determine_thread_chunks, one run_chunk per
    chunk, Encoder::append in chunk order, finish) and the model of its single-threaded branch produce stores from which
-   every bit-vector signal reports the same changes - although the blocks differ.  The steps: thread_first/thread_later
+   every bit-vector signal reports the same changes and the time tables are equal - although the blocks differ.  The steps: thread_first/thread_later
    (which lines a thread started at an arbitrary byte offset parses: from the first line start after its offset to the
    first time stamp line starting beyond its end), ops_tile (these pieces tile the sequential operation list without gap
    or overlap), rec_concat (the recordings of the pieces, shifted by the time stamps before them, are the recording of
@@ -104,7 +104,7 @@ Check read_values_mt_equals_st :
   exists s_st s_mt,
     load_signal lz_decompress b_st id (EncBits bits) = Ok s_st /\
     load_signal lz_decompress b_mt id (EncBits bits) = Ok s_mt /\
-    observe_signal s_st = observe_signal s_mt.
+    observe_signal s_st = observe_signal s_mt /\ t_st = t_mt.
 
 Check mt_equals_st :
   forall (parse_f64 : list byte -> option (list byte)) (lz_compress : list byte -> list byte)
@@ -126,7 +126,7 @@ Check mt_equals_st :
   exists s_st s_mt,
     load_signal lz_decompress b_st id (EncBits bits) = Ok s_st /\
     load_signal lz_decompress b_mt id (EncBits bits) = Ok s_mt /\
-    observe_signal s_st = observe_signal s_mt.
+    observe_signal s_st = observe_signal s_mt /\ t_st = t_mt.
 
 Check ops_tile :
   forall lookup ls len0 rest ops, Forall line_ok ls -> starts_with_time ls ->
